@@ -94,7 +94,7 @@ func ParseRefPricing(text string) (RefPricing, error) {
 		if !ok {
 			return p, fmt.Errorf("bad discount %q", t.Discount)
 		}
-		p.ByTime = append(p.ByTime, RefPromoTime{StartNs: st.UnixNano(), EndNs: en.UnixNano(), Discount: d})
+		p.ByTime = append(p.ByTime, RefPromoTime{StartNs: satNs(st), EndNs: satNs(en), Discount: d})
 	}
 	for _, v := range raw.ByVol {
 		d, ok := new(big.Rat).SetString(v.Discount)
@@ -295,4 +295,17 @@ func (c Config) balIn(s *Snapshot, addrHex string) int64 {
 		return 0
 	}
 	return s.Bal[addrHex]
+}
+
+// satNs: the instant in nanoseconds since the Unix epoch, saturating where that count leaves 64 bits (before
+// 1678 / after 2261). Block times of the harness lie between 2020 and 2220, so a window reaching beyond either
+// limit compares with every block time exactly as the true instant does.
+func satNs(t time.Time) int64 {
+	if t.Year() < 1678 {
+		return -1 << 63
+	}
+	if t.Year() > 2261 {
+		return 1<<63 - 1
+	}
+	return t.UnixNano()
 }
